@@ -13,6 +13,10 @@ def main():
         if m.name.startswith(pid.lower()) or m.name == "twobody.py":
             importlib.import_module(f"contracts.{m.stem}")
     cdef = [c for c in pc.PROPS[pid] if c.name == name][0]
+    if isinstance(assign, list):   # a history: earlier cases of the same contract first, the last one is the case reported
+        for a in assign[:-1]:
+            pc.run_concrete(cdef, a)
+        assign = assign[-1]
     status, failures, ctx = pc.run_concrete(cdef, assign)
     if os.environ.get("PYVC_CASE_JSON"):
         print("PYVC_CASE_RESULT " + json.dumps({"status": status, "failures": [str(f) for f in failures]}))
